@@ -22,6 +22,10 @@ def run(tier, seed):
     from props import common_constraints as cm
     cm.fill_trust(ctx)
     cm.bounded_constraints(ctx, props=('C01',))
+    # categoricals whose categories are not strings (recorded finding: tdda types every categorical as a string column)
+    from bounded import constraints_bounded as cb
+    from bounded.core import attach
+    attach(ctx, cb.run(('C01',), tier, seed, families=['category-int']))
     # the file / dict route re-reads date bounds through get_date: it must invert the text written for them
     import time
     from bounded import serial_bounded as sb
